@@ -143,6 +143,7 @@ Definition check_case (c : case) : bool :=
       | _ => false
       end
   | CVerifyW vo p acc out ecls =>
+      wfb (p_payload p) &&
       match verify_w vo p with
       | WOk v => acc && equiv v out && N.eqb ecls 0 && match verify vo p with Ok v' => equiv v' out | _ => false end
       | WErr e => negb acc && N.eqb (wclass_code e) ecls && negb (is_ok (verify vo p))
